@@ -11,6 +11,7 @@ CONSTANTS
   EraseKeepsBug = FALSE
   PushFrontRetBug = FALSE
   ReleaseNoClear = TRUE
+  MoveAssignInPlaceBug = FALSE
 VIEW IView
 INVARIANTS ParentConsistent RootsHaveNoParent NoDangling NoLeak Refines ReturnsAgree ITypeOK TypeOK
 CHECK_DEADLOCK FALSE
